@@ -548,19 +548,11 @@ func (env *Env) specDiv(op string, x, y Term) Term {
 		}
 		return app(SInt, "mod", x, y)
 	}
-	key := "euclid|" + x.S + "|" + y.S
-	var q, r Term
-	if qv, ok := env.ex.euclid[key]; ok {
-		q, r = qv[0], qv[1]
-	} else {
-		q = env.ex.ctx.Fresh("sq", SInt)
-		r = env.ex.ctx.Fresh("sr", SInt)
-		env.ex.euclid[key] = [2]Term{q, r}
+	sink := env.sink
+	if sink == nil {
+		sink = env.cur
 	}
-	saved := env.inQuant
-	env.inQuant = 0 // the definition mentions no bound variable
-	env.assumeSide(tImp(tGt(y, intLit(0)), tAnd(tEq(x, tAdd(tMul(q, y), r)), tLe(intLit(0), r), tLt(r, y))))
-	env.inQuant = saved
+	q, r := env.ex.euclidPair(sink, x, y)
 	if op == "/" {
 		return q
 	}
